@@ -65,6 +65,50 @@ def validate_concurrent(ctx, binary, rounds, payload=None):
         ctx.samples.append({"concurrent_trace_excerpt": [json.loads(x) for x in lines[:12]]})
 
 
+KEYS_LIN = [[1], [2], [3]]
+LIN_EXPECTED = [
+    ("KVLin_x_batch.cfg", "Batch.Write applied key by key"),
+    ("KVLin_x_iter2.cfg", "iterator lists the keys and fetches the values at two points"),
+]
+LIN_EXPECTED_THOROUGH = [
+    ("KVLin_x_range.cfg", "DeleteRange applied key by key"),
+    ("KVLin_x_iterlazy.cfg", "iterator reads values when asked"),
+    ("KVLin_x_snap2.cfg", "snapshot copied in two critical sections"),
+    ("KVLin_x_snaplive.cfg", "snapshot is a reference to the live content"),
+]
+
+
+def reader_visible_atomicity(ctx, binary, thorough):
+    """KVLin.tla: calls have a duration; the contract is ReadersSeeOnePoint (a completed reader call
+    observed ONE abstract content of its window). TLC: the mechanisms as they are satisfy it, each
+    excluded mechanism violates it. Binding: TLC-generated writer programs / reader menus on the real
+    backends with every model key blown up to a group of thousands of real keys; the engine evaluates
+    the invariant on every observation (TestKVLinearizable)."""
+    ctx.tlc_check("kv", "KVLin.tla", "KVLin_quick.cfg", timeout=600)
+    r = ctx.tlc_check("kv", "KVLin.tla", "KVLin_x_vacuity.cfg", timeout=600, expect_violation=True,
+                      label="KVLin: a window spanning two commits is reachable (violation expected)")
+    if r["violated"] != "NoWideWindow":
+        raise vlib.Broken("KVLin_x_vacuity.cfg should violate NoWideWindow, got %s" % r["violated"])
+    for cfg, label in LIN_EXPECTED + (LIN_EXPECTED_THOROUGH if thorough else []):
+        r = ctx.tlc_check("kv", "KVLin.tla", cfg, timeout=600, expect_violation=True,
+                          label="KVLin: %s (violation expected)" % label)
+        if r["violated"] != "ReadersSeeOnePoint":
+            raise vlib.Broken("%s should violate ReadersSeeOnePoint, got %s" % (cfg, r["violated"]))
+    if thorough:
+        ctx.tlc_check("kv", "KVLin.tla", "KVLin_thorough.cfg", timeout=3000)
+    nbeh = 12 if thorough else 5
+    behaviours = ctx.tlc_simulate("kv", "KVLinMBT.tla", "KVLin_sim.cfg", depth=130 * (nbeh + 1),
+                                  seed=ctx.seed * 1000 + 500, timeout=600, max_behaviours=nbeh)
+    res = ctx.run_engine(binary, "TestKVLinearizable",
+                         {"keys": KEYS_LIN, "behaviours": behaviours, "round_ms": 600 if thorough else 350,
+                          "readers": 4, "ghost_ms": 20000}, timeout=1200)
+    if res["stats"].get("ghost_missed"):
+        raise vlib.Broken("the concurrent round did not open the windows in this run: the ghost mechanism '%s' "
+                          "(harness-own, on db/memory) was not reported within its budget" % res["stats"]["ghost_missed"])
+    ctx.absorb(res, "kv", "TestKVLinearizable")
+    ctx.coverage["lin_behaviours"] = len(behaviours)
+
+
 def empty_key_probe(ctx, binary):
     """The property's domain names the EMPTY key. Pebble v2's columnar sstable writer panics
     ('unreachable', colblk.PrefixBytesBuilder.Finish) in a background flush goroutine when a
@@ -117,6 +161,7 @@ def run(ctx):
     res = ctx.run_engine(binary, "TestKVReplay", {"keys": KEYS_FULL, "behaviours": behaviours}, timeout=3000)
     ctx.absorb(res, "kv", "TestKVReplay")
     validate_concurrent(ctx, binary, rounds=60 if thorough else 15)
+    reader_visible_atomicity(ctx, binary, thorough)
     empty_key_probe(ctx, binary)
     ctx.coverage["behaviours_generated"] = len(behaviours)
     ctx.coverage["steps_replayed"] = res.get("steps", 0)
